@@ -12,6 +12,7 @@ import (
 )
 
 func newVC(u *Universe, pi *PkgInfo, mode Mode, name string) *VC {
+	specIntMath = mode == ModeInt
 	return &VC{mode: mode, declared: map[string]string{}, counters: map[string]int{}, assumed: map[string]bool{},
 		fnName: name, uni: u, pkg: pi, specsUsed: map[string]bool{}}
 }
@@ -116,6 +117,19 @@ func runFunction(vc *VC, u *Universe, pi *PkgInfo, fc *FuncContract, fn *ssa.Fun
 	for _, us := range fc.Uses {
 		vc.assume(x.lemmaInstance(env, us))
 	}
+	isInit := fn.Name() == "init" && fn.Synthetic != ""
+	if isInit {
+		// the runtime runs a package initialiser exactly once: its guard is false on entry
+		if g := pi.SSA.Var("init$guard"); g != nil {
+			p := x.get(fr, &st, g)
+			x.storeLoc(&st, p.Loc, Value{T: types.Typ[types.Bool], K: KScalar, X: TFalse})
+		}
+	}
+	if !isInit && pi.Contracts != nil {
+		for _, gi := range pi.Contracts.GlobalInvs {
+			vc.assume(env.evalBool(gi.Expr))
+		}
+	}
 	if fc.Where != nil {
 		// g.where stands for any hypothesis at least as strong as the where-clause
 		wenv := x.entryEnv(fr, &st)
@@ -155,13 +169,26 @@ func runFunction(vc *VC, u *Universe, pi *PkgInfo, fc *FuncContract, fn *ssa.Fun
 			g := post.evalBool(en.Expr)
 			o := vc.oblige("post", Implies(fin.Reach, g), x.posOf(fn, fn.Pos()), fmt.Sprintf("postcondition %d: %s", k+1, en.Src))
 			o.Clause = en.Src
+			o.ClauseCE = en.Expr
 			o.Slow = en.Slow
 			o.Splits = splitsFor(en.Tag)
 			if en.Tag != "" {
 				o.Name = vc.fnName + "#post." + en.Tag
 			}
 		}
-		if !fc.ModAll {
+		if isInit && pi.Contracts != nil {
+			for k, gi := range pi.Contracts.GlobalInvs {
+				g := post.evalBool(gi.Expr)
+				o := vc.oblige("globalinv", Implies(fin.Reach, g), x.posOf(fn, fn.Pos()), fmt.Sprintf("package initialisation establishes global invariant %d: %s", k+1, gi.Src))
+				o.Clause = gi.Src
+			}
+			for _, bad := range globalsNotFinal(pi) {
+				o := vc.oblige("final", TFalse, x.posOf(fn, fn.Pos()), bad)
+				o.Clause = "effectively-final global"
+			}
+			vc.oblige("final", TTrue, x.posOf(fn, fn.Pos()), "mechanical scan: globals named in globalinv are never written or leaked outside init")
+		}
+		if !fc.ModAll && !isInit {
 			x.frameObligations(fr, env, &fin)
 		}
 	} else if len(fc.Ensures) > 0 {
@@ -176,6 +203,9 @@ func runFunction(vc *VC, u *Universe, pi *PkgInfo, fc *FuncContract, fn *ssa.Fun
 			n := strings.Trim(it.Name, "|")
 			out[strings.TrimPrefix(n, "H0.")] = it.Sort
 		}
+	}
+	for _, o := range vc.obls {
+		o.FC = fc
 	}
 	if fc.Tier == "thorough" {
 		for _, o := range vc.obls {
@@ -204,7 +234,11 @@ func (x *Exec) havocParam(st *State, t types.Type, name string) Value {
 				isBytes = true
 			}
 		}
-		x.vc.inputSyms = append(x.vc.inputSyms, InputSym{Param: name, Path: l.Suffix, Sym: s.Op, ByteSlice: isBytes})
+		isBig := false
+		if pt, ok := t.Underlying().(*types.Pointer); ok && typeKey(pt.Elem()) == "big.Int" {
+			isBig = true
+		}
+		x.vc.inputSyms = append(x.vc.inputSyms, InputSym{Param: name, Path: l.Suffix, Sym: s.Op, ByteSlice: isBytes, BigInt: isBig})
 	}
 	v, _ := m.fromLeaves(t, ls)
 	x.assumeTypeInv(st, v)
